@@ -315,7 +315,11 @@ class ExasolGenerator(generator.Generator):
     def select_sql(self, expression: exp.Select) -> str:
         processed = _qualify_unscoped_star(expression)
         processed = _add_local_prefix_for_aliases(processed, self.dialect)
-        processed = _group_by_all(processed)
+        try:
+            processed = _group_by_all(processed)
+        except UnsupportedError as unsupported_error:
+            # Report through the generator so that unsupported_level is honored, like transforms.preprocess does
+            self.unsupported(str(unsupported_error))
         return super().select_sql(t.cast(exp.Select, processed))
 
     def datatype_sql(self, expression: exp.DataType) -> str:
